@@ -22,7 +22,7 @@ RULE = ("fake ACN-Data server holding 0-250 documents (unique _id, RFC-1123 stri
 PROBES = ["empty_page_middle", "empty_page_end", "zero_documents", "three_plus_pages", "dst_transition_doc", "timeseries_doc",
           "by_time_query", "fault:not_json", "fault:error_doc", "fault:connection", "invalid_site", "host_tz_non_utc",
           "roundtrip_checked", "timeseries_spans_dst", "concurrent_generators", "interleaved_switches", "underscore_date_field",
-          "new_year_query_bound"]
+          "new_year_query_bound", "prelude_query_on_same_client"]
 FAULT_DIMENSION = "interleaving of up to three generators of one client (seeded scheduler decides who advances); server-side faults at page k: non-JSON body, error document without _items, transport ConnectionError (client has no retry: must raise, never end silently)"
 REAL_VS_STUB = "real: DataClient, acndata.utils (http_date, parse_http_date, parse_dates); stub: requests -> in-process fake server; reference: integer epoch arithmetic + zoneinfo"
 ASSUMPTIONS = ["query values contain no '&' (the client does not URL-encode; out of the property's scope)",
@@ -96,7 +96,16 @@ def gen(rs, tier):
                           "docs": [{"_id": "%s%03d" % (site[:2], j), "connectionTime": base + r.randint(0, 86400 * 30),
                                     "disconnectTime": base + 86400 * 31, "doneChargingTime": None, "kWhDelivered": 1.0 + j,
                                     "sessionID": "x%d" % j, "spaceID": "Q", "timezone": r.choice(ZONES), "note": "n"} for j in range(m)]})
-    return {"seed": rs, "docs": docs, "pages": pages, "mode": mode, "args": args, "fault": fault, "extra_queries": extra,
+    prelude = None
+    free_sites = []
+    if True:
+        # the same client (and library) has already served an earlier, different query: nothing of it may stick
+        free_sites = [x for x in ["caltech", "jpl", "office001"] if x != args["site"] and x not in [q["site"] for q in extra]]
+    if mode != "invalid_site" and fault is None and r.random() < 0.3 and free_sites:
+        psite = free_sites[0]
+        prelude = {"site": psite, "cond": r.choice([None, None, "kWhDelivered > 3"]), "sort": r.choice([None, "connectionTime"]),
+                   "project": r.choice([None, '{"kWhDelivered": 1}']), "consume": r.choice([0, 1, 99]), "ndocs": r.randint(0, 4)}
+    return {"seed": rs, "docs": docs, "pages": pages, "mode": mode, "args": args, "fault": fault, "extra_queries": extra, "prelude": prelude,
             "host_tz": r.choice(HOST_TZ), "roundtrip": [(r.choice(DST_EPOCHS + [base]) + r.randint(-7200, 7200), r.choice(ZONES)) for _ in range(3)]}
 
 
@@ -141,6 +150,16 @@ def check(sc):
         with warnings.catch_warnings():
             warnings.simplefilter("ignore")
             client = dc_mod.DataClient("tok3n")
+            pq = sc.get("prelude")
+            if pq:
+                server.add_site(pq["site"], [serialise({"_id": "p%d" % j, "connectionTime": 1546300800 + 60 * j, "disconnectTime": 1546304400,
+                                                        "doneChargingTime": None, "kWhDelivered": 5.0 + j, "sessionID": "p%d" % j, "spaceID": "P",
+                                                        "timezone": "UTC", "note": "n"}) for j in range(pq["ndocs"])], [1, 1])
+                gp = client.get_sessions(pq["site"], cond=pq["cond"], project=pq["project"], sort=pq["sort"])
+                for _ in range(pq["consume"]):
+                    if next(gp, None) is None:
+                        break
+                out.probe("prelude_query_on_same_client")
             try:
                 if sc["mode"] == "by_time":
                     z = zoneinfo.ZoneInfo(a["arg_zone"])
@@ -217,7 +236,8 @@ def check(sc):
                         parts.append("sort=" + a["sort"])
                     parts.append("max_results=%d" % (1 if a.get("timeseries") else 100))
                     exp_url = "sessions/" + a["site"] + ("/ts/" if a.get("timeseries") else "") + "?" + "&".join(parts)
-                xs_ = tuple("sessions/%s?" % x["site"] for x in sc.get("extra_queries", []))
+                xs_ = tuple("sessions/%s?" % x["site"] for x in sc.get("extra_queries", [])) + \
+                    ((("sessions/%s?" % sc["prelude"]["site"]),) if sc.get("prelude") else ())
                 mine_ = [r for r in server.requests if not any(x in r[0] for x in xs_)]
                 if not mine_ or mine_[0][0] != server.base + exp_url:
                     out.add("C20/first_request", "sent %r, expected %r" % (mine_[0][0] if mine_ else None, server.base + exp_url))
@@ -239,7 +259,6 @@ def check(sc):
                     elif ids != order:
                         out.add("C20/yield_sequence", "yielded %d docs %s..., server order has %d %s... (pages %s)" % (len(ids), ids[:6], len(order), order[:6], plan))
                     exp_reqs = [server.base + exp_url] + [server.base + "sessions/%s?page=%d&tok=%d" % (a["site"], k + 2, 7919 * (k + 2)) for k in range(len(plan) - 1)]
-                    xs_ = tuple("sessions/%s?" % x["site"] for x in sc.get("extra_queries", []))
                     mine = [r[0] for r in server.requests if not any(x in r[0] for x in xs_)]
                     if not out.viol and mine != exp_reqs:
                         out.add("C20/requests", "requests %s, expected %s" % (mine[:5], exp_reqs[:5]))
